@@ -14,7 +14,7 @@ LEVEL_NOTE = ("Lean theorems: fit_perm / partialFit_perm (for every context-free
               "(int <-> str <-> float, labels of different lengths); row order for linear policies and neighbourhood policies is "
               "checked by permuted twins at 1e-9.")
 
-PROFILE = {"name": "C20", "lp": G.CF_KINDS + G.LIN_KINDS, "np": [None, None] + G.NP_KINDS,
+PROFILE = {"name": "C20", "allow_scale": True, "lp": G.CF_KINDS + G.LIN_KINDS, "np": [None, None] + G.NP_KINDS,
            "labels": ["int", "str", "float"],
            "weights": {"fit": 1, "pfit": 3, "query": 3, "add": 1, "rem": 0.7, "warm": 0.5}}
 
